@@ -429,11 +429,14 @@ func checkProperty(P *Program, verifDir, prop, tier string, opts VerifyOpts) int
 		lemma   string
 		bounded string
 		class   string
+		from    string // lemma function the obligation was generated in
 	}
 	aggs := map[string]*agg{}
 	var order []string
 	var unsupported, engineErrors, boundedNotes []string
 	var overBudget []*LemmaJSON
+	mismatch := map[string]bool{}
+	var mismatchNotes []string
 	var solverMs int64
 	models := map[string]bool{}
 	functions := map[string]bool{}
@@ -450,6 +453,17 @@ func checkProperty(P *Program, verifDir, prop, tier string, opts VerifyOpts) int
 			}
 		}
 		for _, u := range lj.Unsupported {
+			if strings.HasPrefix(u, "invariant ") && strings.Contains(u, "cannot bind") {
+				// a loop invariant written for this loop no longer matches the loop's variables:
+				// the code was restructured.  An invariant is only a means to prove the lemma's
+				// assertions, so this is a lost proof, not a defect: assertions that now fail are
+				// decided by the search step below instead.  (Step and exit predicates are
+				// obligations in their own right: when they cannot be bound the code has left
+				// what is verified, and that stays an engine#subset violation.)
+				mismatch[lj.Lemma] = true
+				mismatchNotes = append(mismatchNotes, lj.Lemma+": "+u)
+				continue
+			}
 			unsupported = append(unsupported, lj.Lemma+": "+u)
 		}
 		for _, b := range lj.Bounded {
@@ -473,7 +487,7 @@ func checkProperty(P *Program, verifDir, prop, tier string, opts VerifyOpts) int
 			bn := baseName(o.Name)
 			a := aggs[bn]
 			if a == nil {
-				a = &agg{name: bn, status: "discharged", solver: map[string]int{}, class: o.Class}
+				a = &agg{name: bn, status: "discharged", solver: map[string]int{}, class: o.Class, from: lj.Lemma}
 				aggs[bn] = a
 				order = append(order, bn)
 			}
@@ -556,6 +570,15 @@ func checkProperty(P *Program, verifDir, prop, tier string, opts VerifyOpts) int
 			lines = append(lines, fmt.Sprintf("KNOWN-FINDING: property=%s %s %s", prop, bn, kf.What))
 			continue
 		}
+		if mismatch[a.from] && a.replay != nil && a.replay.Status != "confirmed" && a.replay.SearchCases > 0 {
+			// contract mismatch (see above): the obligation could not be proved because the
+			// invariant does not apply to the restructured loop; the executable lemma was run on
+			// the real package on boundary-biased random inputs and no input violates it.
+			// Reported as a bounded stand-in (the unbounded proof is lost), not as a violation.
+			nBounded++
+			boundedNotes = append(boundedNotes, a.from+": "+bn+": the loop contract no longer matches the code; decided by "+fmt.Sprint(a.replay.SearchCases)+" boundary-biased random cases on the real code only (no counterexample)")
+			continue
+		}
 		nObl++
 		violations++
 		os.MkdirAll(replayDir, 0o755)
@@ -585,6 +608,9 @@ func checkProperty(P *Program, verifDir, prop, tier string, opts VerifyOpts) int
 	}
 	for _, u := range unsupported {
 		fmt.Println("ENGINE-UNSUPPORTED:", u)
+	}
+	for _, u := range mismatchNotes {
+		fmt.Println("CONTRACT-MISMATCH (unbounded proof lost, search stands in):", u)
 	}
 	if len(unsupported) > 0 {
 		// code outside the verifier's subset: the obligations generated from it are not
